@@ -1,5 +1,202 @@
-"""Z3 translation conformance (filled in below)"""
+"""Conformance of claripy's AST -> Z3 translation (the meaning symbolic nodes have for the solver).
+
+For every AST produced by one public operation on the leaves of the scope (thorough: two), the term
+`backends.z3.convert(ast)` is ground-evaluated under EVERY assignment (variables substituted by
+numerals, `z3.simplify` to a value – no `check()` involved) and compared with `den(ast)`, the
+node-by-node reference interpretation.  `Backend.convert` is a structural recursion with one handler
+per op, so agreement on every op over every operand shape extends to trees.
+"""
+
+from __future__ import annotations
+
+import claripy
+import z3
+
+from .common import Part, pmap
+from .refsem import DenError, show
 
 
-def run_z3conf(report, tier):
-    return
+def z3_table(ast, scope, zvars):
+    """truth table of the Z3 translation of `ast` over the scope, by ground evaluation"""
+    term = claripy.backends.z3.convert(ast)
+    out = []
+    isbool = z3.is_bool(term)
+    names = list(zvars)
+    for i in range(scope.N):
+        env = scope.env(i)
+        subs = []
+        for n in names:
+            zv = zvars[n]
+            v = env[n]
+            if z3.is_bool(zv):
+                subs.append((zv, z3.BoolVal(bool(v), ctx=zv.ctx)))
+            else:
+                subs.append((zv, z3.BitVecVal(v, zv.size(), ctx=zv.ctx)))
+        g = z3.simplify(z3.substitute(term, *subs))
+        if isbool:
+            if z3.is_true(g):
+                out.append(True)
+            elif z3.is_false(g):
+                out.append(False)
+            else:
+                raise ValueError(f"not ground: {g}")
+        else:
+            if not z3.is_bv_value(g):
+                raise ValueError(f"not ground: {g}")
+            out.append(g.as_long())
+    return tuple(out)
+
+
+def _shard(args):
+    from .exprspace import Space
+
+    w, leaf_i, depth = args
+    part = Part()
+    space = Space(w, nbool=2)
+    zvars = {}
+    for v in space.leaves():
+        zvars[v.args[0]] = claripy.backends.z3.convert(v)
+    level = [space.leaves()[leaf_i]]
+    seen = set()
+    for d in range(depth):
+        nxt = []
+        for s in level:
+            for tr in space.transitions(s, full=(d == 0)):
+                try:
+                    r = tr.build()
+                except Exception:
+                    continue
+                if not isinstance(r, claripy.ast.Base) or id(r) in seen:
+                    continue
+                seen.add(id(r))
+                nxt.append(r)
+                if not r.symbolic:
+                    continue
+                part.count("transitions")
+                part.count("z3_terms_evaluated")
+                try:
+                    exp = space.den(r)
+                    got = z3_table(r, space.scope, zvars)
+                except DenError as e:
+                    part.oracle_errors.append(f"z3conf {tr.key}: {e}")
+                    continue
+                except Exception as e:
+                    part.fail("z3conv:raise:" + r.op, f"w={w}|{show(r)}", f"{type(e).__name__}: {e}")
+                    continue
+                if exp != got:
+                    i = next(k for k, (a, b) in enumerate(zip(exp, got)) if a != b)
+                    part.fail(
+                        "z3conv:" + r.op,
+                        f"w={w}|{show(r)}",
+                        {"env": space.scope.env(i), "den": exp[i], "z3": got[i]},
+                    )
+                else:
+                    part.sample({"z3conf": show(r), "w": w}, limit=1)
+                part.note("z3conf_ops", r.op)
+        # only rewrite-free, symbolic nodes of moderate number go on
+        level = [s for s in nxt if s.symbolic][:: max(1, len(nxt) // 40)] if d + 1 < depth else []
+    return part.dump()
+
+
+def _reverse_shard(w):
+    """Reverse / n-ary Bool nodes at byte widths (value alphabet = byte atoms)"""
+    from .shadow import byte_atom_domain, product_scope
+
+    part = Part()
+    D = byte_atom_domain(w, cap=300)
+    scope = product_scope([("x", w, D), ("c", 0, [False, True]), ("d", 0, [False, True])])
+    from .refsem import Den
+
+    den = Den(scope)
+    x = claripy.BVS("x", w, explicit_name=True)
+    c = claripy.BoolS("c", explicit_name=True)
+    d = claripy.BoolS("d", explicit_name=True)
+    zvars = {"x": claripy.backends.z3.convert(x), "c": claripy.backends.z3.convert(c), "d": claripy.backends.z3.convert(d)}
+    cases = [claripy.Reverse(x), claripy.Reverse(x + 1), claripy.Reverse(x)[w - 1 : 4], claripy.Concat(x, claripy.Reverse(x))]
+    cases += [claripy.And(c, d), claripy.Or(c, d), claripy.And(c, d, x == 1), claripy.Or(c, claripy.Not(d), x != 1)]
+    cases += [claripy.If(claripy.And(c, d), x, claripy.Reverse(x)), x * x * 3, x + x + 1, (x ^ 1) ^ claripy.Reverse(x)]
+    for r in cases:
+        part.count("transitions")
+        part.count("z3_terms_evaluated")
+        part.note("z3conf_ops", r.op)
+        try:
+            exp = den(r)
+            got = z3_table(r, scope, zvars)
+        except DenError as e:
+            part.oracle_errors.append(f"z3conf {show(r)}: {e}")
+            continue
+        except Exception as e:
+            part.fail("z3conv:raise:" + r.op, f"w={w}|{show(r)}", f"{type(e).__name__}: {e}")
+            continue
+        if exp != got:
+            i = next(k for k, (a, b) in enumerate(zip(exp, got)) if a != b)
+            part.fail("z3conv:" + r.op, f"w={w}|{show(r)}", {"env": scope.env(i), "den": exp[i], "z3": got[i]})
+    return part.dump()
+
+
+def run_z3conf(report, tier, widths=None):
+    widths = widths or ((1, 2, 3) if tier == "quick" else (1, 2, 3, 4))
+    depth = 1 if tier == "quick" else 2
+    items = [(w, i, depth) for w in widths for i in range(4)]
+    for res in pmap(_shard, items):
+        report.merge(res)
+    for res in pmap(_reverse_shard, [16, 24, 32, 64]):
+        report.merge(res)
+
+
+def refsem_selftest(report, widths=(1, 2, 3)):
+    """our op table vs. Z3's own ground evaluation of the SMT-LIB operators (z3 API only; no claripy).
+    A disagreement is an error of OUR oracle: exit 2, never a VIOLATION."""
+    from . import refsem as R
+
+    zops = {
+        "__add__": lambda a, b: a + b,
+        "__sub__": lambda a, b: a - b,
+        "__mul__": lambda a, b: a * b,
+        "__floordiv__": z3.UDiv,
+        "__mod__": z3.URem,
+        "SDiv": lambda a, b: a / b,
+        "SMod": z3.SRem,
+        "__and__": lambda a, b: a & b,
+        "__or__": lambda a, b: a | b,
+        "__xor__": lambda a, b: a ^ b,
+        "__lshift__": lambda a, b: a << b,
+        "__rshift__": lambda a, b: a >> b,
+        "LShR": z3.LShR,
+        "RotateLeft": z3.RotateLeft,
+        "RotateRight": z3.RotateRight,
+    }
+    zcmp = {
+        "__eq__": lambda a, b: a == b,
+        "__ne__": lambda a, b: a != b,
+        "ULT": z3.ULT,
+        "ULE": z3.ULE,
+        "UGT": z3.UGT,
+        "UGE": z3.UGE,
+        "SLT": lambda a, b: a < b,
+        "SLE": lambda a, b: a <= b,
+        "SGT": lambda a, b: a > b,
+        "SGE": lambda a, b: a >= b,
+    }
+    n = 0
+    for w in widths:
+        for a in range(1 << w):
+            A = z3.BitVecVal(a, w)
+            for b in range(1 << w):
+                B = z3.BitVecVal(b, w)
+                for name, f in zops.items():
+                    g = z3.simplify(f(A, B)).as_long()
+                    n += 1
+                    if g != R.BV_BIN[name](a, b, w):
+                        report.oracle_errors.append(f"refsem {name}({a},{b})#{w}: ours {R.BV_BIN[name](a, b, w)} z3 {g}")
+                for name, f in zcmp.items():
+                    g = z3.is_true(z3.simplify(f(A, B)))
+                    n += 1
+                    if g != R.BV_CMP[name](a, b, w):
+                        report.oracle_errors.append(f"refsem {name}({a},{b})#{w}")
+            for k in (1, 2):
+                if z3.simplify(z3.SignExt(k, A)).as_long() != R.signext(k, a, w):
+                    report.oracle_errors.append(f"refsem signext {a}#{w}")
+            if z3.simplify(-A).as_long() != R.bvneg(a, w) or z3.simplify(~A).as_long() != R.bvnot(a, w):
+                report.oracle_errors.append(f"refsem neg/not {a}#{w}")
+    report.count("oracle_selftest_cases", n)
